@@ -796,6 +796,46 @@ def _selftest(ctx, root):
                       explanation="the snapshot comparison did not see a deliberate in-place edit")
 
 
+_INTERLEAVED_DONE = set()
+
+
+def _interleaved(ctx, root):
+    """call; unrelated calls on other data (one of them with a window longer than the default FFT length); the
+    same call again - in a process without any other history.  (fft request {'n': None} is left out: its
+    re-resolution on the second call is the known finding of this property.)"""
+    if _SERVER is None or root["fft"] == "nopad":
+        return
+    kinds = root["kinds"] if root["first"] in ("Mr",) or root["first"].startswith("Mr:") else [root["first"].split("|")[0]]
+    for kind in kinds:
+        key = (root["nrec"], kind, root["fft"])
+        if key in _INTERLEAVED_DONE:
+            continue
+        _INTERLEAVED_DONE.add(key)
+        w = root["widths"][-1]
+        ans = _SERVER.request(dict(scenario="interleaved", nrec=root["nrec"], kind=kind, w=w, fft=root["fft"]))
+        ctx.count("transitions", 5)
+        ctx.count("states")
+        ctx.count("interleaved_scenarios")
+        path = path_of(kind)
+        (v1, p1, n1), (v2, p2, n2), (v3, p3, n3) = ans["first"], ans["again"], ans["fresh_settings_afterwards"]
+        detail = dict(scenario="process(recs, s); unrelated process() calls on other recordings (48 samples at 0.02 s "
+                               f"and one window of {LONG_N} samples at 0.005 s, default fft_settings; equal "
+                               "recordings with a taper 0.004 wider) and three refused calls on recs (azimuths "
+                               "beyond 180, centre frequencies above the Nyquist frequency); process(recs, s) "
+                               "again; process(recs, pristine settings of the same request)",
+                      kind=kind, width=w, fft_request=root["fft"], nrec=root["nrec"],
+                      fft_n=[n1, n2, n3])
+        for tag, (va, pa), what in (("again", (v2, p2), "the same settings object"),
+                                    ("fresh-settings", (v3, p3), "a pristine settings object of the same request")):
+            d = view_diff(v1, va)
+            ctx.count("validated")
+            if d:
+                ctx.violation(f"C09:interleaved:{path}:{tag}:result-differs-after-unrelated-calls", root,
+                              detail=dict(detail, differing_parts=d), expected=p1, observed=pa,
+                              explanation=f"the same processing of equal recordings with {what} gives another "
+                                          f"result after unrelated calls on other data were made in between")
+
+
 def _root(nrec, fft, first, depth, kinds, widths, mr, ms_targets):
     return dict(nrec=nrec, fft=fft, first=first, depth=depth, kinds=list(kinds), widths=list(widths),
                 mr=list(mr), ms_targets=list(ms_targets))
@@ -850,9 +890,64 @@ _SERVER = None
 _REF_CACHE = {}
 
 
+LONG_N = 40000      # more samples than the default FFT length 2**15: the padded length becomes 2**16
+
+
+def _long_decoy():
+    """An unrelated call: ONE long window, another time step and taper, default FFT settings, fresh objects."""
+    n = np.arange(LONG_N)
+    x = ((n * 7919) % 1013) / 1013.0 - 0.5
+    recs = [SeismicRecording3C(TimeSeries(x + 0.3, 0.005), TimeSeries(x[::-1] * 1.5, 0.005),
+                               TimeSeries(np.roll(x, 17) - 0.1, 0.005))]
+    sm = dict(operator="linear_rectangular", bandwidth=3.0, center_frequencies_in_hz=[4.0, 9.0])
+    for cls, kw in ((hvsrpy.HvsrTraditionalProcessingSettings, dict(method_to_combine_horizontals="squared_average")),
+                    (hvsrpy.HvsrTraditionalSingleAzimuthProcessingSettings, dict(azimuth_in_degrees=77.0))):
+        hvsrpy.process(recs, cls(window_type_and_width=["tukey", 0.33], smoothing=dict(sm), **kw))
+
+
+def _refused_settings():
+    sm = dict(operator="konno_and_ohmachi", bandwidth=40.0, center_frequencies_in_hz=list(FCS))
+    hi = dict(sm, center_frequencies_in_hz=[5.0, 0.9 / DT])
+    return [hvsrpy.HvsrAzimuthalProcessingSettings(window_type_and_width=["tukey", 0.9], smoothing=dict(sm),
+                                                   azimuths_in_degrees=[0, 45, 90, 135, 180, 225]),
+            hvsrpy.HvsrTraditionalProcessingSettings(window_type_and_width=["tukey", 0.8], smoothing=hi),
+            hvsrpy.HvsrTraditionalSingleAzimuthProcessingSettings(window_type_and_width=["tukey", 0.7],
+                                                                  smoothing=hi, azimuth_in_degrees=10.0)]
+
+
+def _pristine_interleaved(req):
+    """Runs in a fresh child: the call, unrelated calls (short and long decoys), the same call again with the
+    SAME settings object on equal recordings; returns both views."""
+    s = make_settings(req["kind"], req["w"], FFT_REQUESTS[req["fft"]]())
+    recs = make_recordings(req["nrec"])         # the caller keeps its recordings (process() leaves them alone)
+    r1 = run_process(recs, s)
+    n1 = s.fft_settings.get("n") if isinstance(s.fft_settings, dict) else None
+    _decoy()
+    _long_decoy()
+    # calls on the caller's recordings that are legitimately refused (azimuths outside [0, 180); centre
+    # frequencies above the Nyquist frequency), each with another taper
+    for bad in _refused_settings():
+        out = run_process(recs, bad)
+        if not isinstance(out, Raised):
+            raise RuntimeError("a call meant to be refused was accepted: " + repr(bad.attr_dict)[:200])
+    # last before the repetition: the same kind of call on equal data with a taper 0.4 % wider (other objects)
+    run_process(make_recordings(req["nrec"]), make_settings(req["kind"], float(req["w"]) + 0.004,
+                                                            FFT_REQUESTS[req["fft"]]()))
+    r2 = run_process(recs, s)
+    n2 = s.fft_settings.get("n") if isinstance(s.fft_settings, dict) else None
+    # and a pristine settings object of the same request AFTER the unrelated calls
+    s3 = make_settings(req["kind"], req["w"], FFT_REQUESTS[req["fft"]]())
+    r3 = run_process(recs, s3)
+    n3 = s3.fft_settings.get("n") if isinstance(s3.fft_settings, dict) else None
+    return dict(first=(view(r1), preview(r1), n1), again=(view(r2), preview(r2), n2),
+                fresh_settings_afterwards=(view(r3), preview(r3), n3))
+
+
 def _pristine_reference(req):
     """Runs in a fresh child of the pristine server: one call, no history."""
     global NEAR_EQUAL_DT
+    if req.get("scenario") == "interleaved":
+        return _pristine_interleaved(req)
     NEAR_EQUAL_DT = bool(req.get("near_dt"))
     recs = make_recordings(req["nrec"])
     for m in req["mr"]:
@@ -895,6 +990,7 @@ def run_root(root, ctx, tier):
 
 def _run_root(root, ctx, tier):
     _selftest(ctx, root)
+    _interleaved(ctx, root)
     sysm = System(root, ctx)
     explorer.bfs(sysm, root, root["depth"], ctx, key_prefix="C09",
                  check_determinism=(tier == "thorough" and root["depth"] <= 2))
